@@ -21,6 +21,9 @@ def sig_of(r):
         # a run stopped by max_iteration (never finalised) is iterated once more
         # by every further run()/resume
         return "cap_stopped_rerun"
+    if r["c"] == "fractional_error = standard definition" and \
+            (ev.get("crit") or {}).get("frac_err_nan_unrepresentable_evidence"):
+        return "fractional_error_nan_when_evidence_not_representable"
     return c
 
 
@@ -69,6 +72,10 @@ def ins_corpus(tier, seed):
         # unnormalised likelihood (ln Z ~ -700): the criteria must still equal their definitions
         ins_spec("offlow2", s + 7, 100, stopping_criterion=["fractional_error", "Z_err", "ess"],
                  tolerance=[0.05, 1.05, -1.0], check_criteria="any", max_iteration=5),
+        # ln L ~ -2e4: Z_err and fractional_error are NaN (0/0 even in long double) and never "met"
+        ins_spec("offvlow2", s + 8, 100, stopping_criterion=["ratio", "Z_err"], tolerance=[5.0, 0.5],
+                 check_criteria="all", max_iteration=4),
+        ins_spec("offvlow2", s + 9, 100, stopping_criterion="fractional_error", tolerance=0.5, max_iteration=3),
     ]
     if tier == "thorough":
         import itertools
